@@ -108,8 +108,8 @@ def run_case(case, stats):
             root(s)
             return s.tell()
 
-        a1 = gen.accepted_input(rng, p)
-        a2 = gen.accepted_input(rng, p)
+        a1 = gen.accepted_input(rng, p, stats=stats)
+        a2 = gen.accepted_input(rng, p, stats=stats)
         if a1 is None or a2 is None:
             raise Discard("no_accepted_input")
         v1 = a1[0][: a1[1]]
